@@ -17,7 +17,7 @@
        else:                                                    (branch "share")
          return self.next_sink
 
-   The yield inside _Get is a separate step: a request (or the greenlet started by pool.Open()) that
+   The yield inside _Get is a separate step: a request (or the greenlet spawned by pool.Open(), which starts at its own `Start` label) that
    reaches Open().wait() on a sink whose open has not completed becomes a waiting task; `Resume t`
    lets exactly that greenlet continue (`return self.next_sink` reads the field at that moment), in any order
    the label sequence chooses, interleaved with any other label.  gevent wakes the waiters in FIFO
@@ -41,14 +41,16 @@ Record st := mkSt {
   refc : Z;                 (* pool._ref_count (Close decrements unconditionally: may become negative) *)
   sinks : list sstate;      (* environment: every sink the provider ever created, by creation order *)
   waiting : list task;      (* greenlets blocked at the yield *)
+  spawned : list nat;       (* greenlets spawned by pool.Open() (AsyncResult.Run) that have not started yet *)
   ntask : nat               (* number of Req/OpenPool labels so far = name of the next task *)
 }.
 
-Definition init : st := mkSt None 0%Z [] [] 0.
+Definition init : st := mkSt None 0%Z [] [] [] 0.
 
 Inductive label :=
 | Req (fail : bool)             (* a request enters AsyncProcessRequest; fail: CreateSink raises if it is called *)
-| OpenPool (fail : bool)        (* pool.Open() and the start of the greenlet it spawns *)
+| OpenPool                      (* pool.Open(): counts, and spawns the greenlet that will call _Get (first holder) *)
+| Start (t : nat) (fail : bool) (* scheduler: the greenlet spawned by Open call t starts running _Get *)
 | ClosePool                     (* pool.Close() *)
 | OpenDone (n : nat) (ok : bool)(* environment: the pending open of sink n completes *)
 | Fault (n : nat)               (* environment: sink n fails *)
@@ -71,11 +73,12 @@ Fixpoint upd {A} (l : list A) (i : nat) (x : A) : list A :=
   | y :: r, S i' => y :: upd r i' x
   end.
 
-Definition set_next (s : st) (n : option nat) := mkSt n (refc s) (sinks s) (waiting s) (ntask s).
-Definition set_refc (s : st) (r : Z) := mkSt (next s) r (sinks s) (waiting s) (ntask s).
-Definition set_sinks (s : st) (l : list sstate) := mkSt (next s) (refc s) l (waiting s) (ntask s).
-Definition set_waiting (s : st) (w : list task) := mkSt (next s) (refc s) (sinks s) w (ntask s).
-Definition bump (s : st) := mkSt (next s) (refc s) (sinks s) (waiting s) (S (ntask s)).
+Definition set_next (s : st) (n : option nat) := mkSt n (refc s) (sinks s) (waiting s) (spawned s) (ntask s).
+Definition set_refc (s : st) (r : Z) := mkSt (next s) r (sinks s) (waiting s) (spawned s) (ntask s).
+Definition set_sinks (s : st) (l : list sstate) := mkSt (next s) (refc s) l (waiting s) (spawned s) (ntask s).
+Definition set_waiting (s : st) (w : list task) := mkSt (next s) (refc s) (sinks s) w (spawned s) (ntask s).
+Definition set_spawned (s : st) (p : list nat) := mkSt (next s) (refc s) (sinks s) (waiting s) p (ntask s).
+Definition bump (s : st) := mkSt (next s) (refc s) (sinks s) (waiting s) (spawned s) (S (ntask s)).
 
 Inductive gres :=
 | GRaise            (* _Get raised *)
@@ -118,17 +121,21 @@ Definition step (s : st) (l : label) : st * list obs :=
       | GWait n => (set_waiting s1 (waiting s1 ++ [mkTask c KReq n]), o)
       | GSink n => (s1, o ++ [Forward c n])
       end
-  | OpenPool fail =>
+  | OpenPool =>
       let t := ntask s in
       let s0 := set_refc (bump s) (refc s + 1) in
-      if (refc s0 >? 1)%Z then (s0, [OpenResult t true])
-      else
+      if (refc s0 >? 1)%Z then (s0, [OpenResult t true])        (* AsyncResult.Complete() *)
+      else (set_spawned s0 (spawned s0 ++ [t]), [])              (* AsyncResult.Run(TryGet) *)
+  | Start t fail =>
+      if existsb (Nat.eqb t) (spawned s) then
+        let s0 := set_spawned s (filter (fun x => negb (Nat.eqb x t)) (spawned s)) in
         let '(s1, r, o) := get s0 fail in
         match r with
         | GRaise => (s1, o ++ [OpenResult t false])
         | GWait n => (set_waiting s1 (waiting s1 ++ [mkTask t KOpen n]), o)
         | GSink _ => (s1, o ++ [OpenResult t true])
         end
+      else (s, [])
   | ClosePool =>
       let s0 := set_refc s (refc s - 1) in
       match next s0 with
